@@ -115,6 +115,20 @@ def owedNodeByShards (s : State) : Int :=
   sumInt (s.pledges.map (·.totalStoragePledged)) +
   sumInt ((s.shards.filter (fun sh => sh.status = ShardCompleted)).map (·.pledge)) - sumInt (s.debts.map (·.2))
 
+/-- what the market escrow owes providers by the chain's own records (in 10^-18 coins): income accrued and
+    not yet claimed, income still to be earned on the current paid period of every live completed shard,
+    and the price of every prepaid renewal period that has not started -/
+def owedMarket (s : State) : Dec :=
+  sumInt (s.workers.map (fun w => w.reward + Dec.mulInt w.incomePerSecond (s.h - w.lastRewardAt))) +
+  sumInt ((s.shards.filter (fun sh => sh.status = ShardCompleted)).map (fun sh =>
+    let price := ((s.getOrder sh.orderId).map (·.unitPrice)).getD 0
+    let remaining : Int := (addU64 sh.createdAt sh.duration : Int) - s.h
+    Dec.mulInt (Dec.mulInt price sh.size) (if remaining < 0 then 0 else remaining) +
+    sumInt (sh.renewInfos.map (fun ri =>
+      Dec.mulInt (Dec.mulInt (((s.getOrder ri.orderId).map (·.unitPrice)).getD 0) sh.size) ri.duration))))
+
+def solventMarket (e : Env) (s : State) : Bool := s.bal e.modMarket * precision ≥ owedMarket s
+
 def solventOrder (e : Env) (s : State) : Bool := s.bal e.modOrder ≥ owedOrder s
 def solventNodeByShards (e : Env) (s : State) : Bool := s.bal e.modNode ≥ owedNodeByShards s
 def solventNode (e : Env) (s : State) : Bool := s.bal e.modNode ≥ owedNode s
